@@ -209,6 +209,15 @@ def run_history(root_name, hist):
     loaders = {n: c for n, c in watched.items() if n.endswith('Loader') or (n.startswith('lat:') and is_loader)}
     dumpers = {n: c for n, c in watched.items() if n.endswith('Dumper') or (n.startswith('lat:') and not is_loader)}
     problems = []
+    # the shipped loader / dumper classes are siblings: none inherits from another, otherwise a registration aimed at one of
+    # them (yaml.add_constructor(..., Loader=yaml.Loader), a YAMLObject bound to it) silently reaches the other
+    fam = {n: c for n, c in ship.items() if n.endswith(('Loader', 'Dumper'))}
+    for a, ca in fam.items():
+        for b, cb in fam.items():
+            if ca is not cb and issubclass(ca, cb):
+                problems.append('shipped class %s inherits from shipped class %s: what is registered on %s alone takes effect for %s' % (a, b, b, a))
+    if problems:
+        return {'problems': problems[:4], 'steps': 0, 'probes': 0}
     d0 = compare(model, watched)
     if d0:
         return {'problems': ['model does not describe the initial state: ' + '; '.join(d0[:3])], 'steps': 0, 'probes': 0}
